@@ -11,7 +11,7 @@ WRAPS = {
                      "termination_on_msg_process", "fossil_lp_collect", "stats_take"],
     "distributed/mpi.c": ["msg_queue_insert", "msg_allocator_alloc"],
     "gvt/fossil.c": ["msg_allocator_free"],
-    "datatypes/msg_queue.c": ["msg_allocator_free"],
+    "datatypes/msg_queue.c": ["msg_allocator_free=vw_qfini_msg_allocator_free"],
     "lp/lp.c": ["process_lp_fini", "process_lp_init"],
 }
 MODEL_SRC = ["model/vmodel.c", "model/refexec.c", "model/coreenv.c"]
@@ -28,9 +28,10 @@ def build(d, san=False, harness="harness/h_run.c", name="h_run"):
         nm = subprocess.run(["nm", "-u", obj], capture_output=True, text=True).stdout.split()
         args = []
         for s in syms:
+            s, _, target = s.partition("=")
             if s not in nm:
                 raise vc.EngineError(f"cannot observe {s}: {src} no longer calls it across translation units")
-            args += ["--redefine-sym", f"{s}=vw_{s}"]
+            args += ["--redefine-sym", f"{s}={target or 'vw_' + s}"]
         p = subprocess.run(["objcopy"] + args + [obj], capture_output=True, text=True)
         if p.returncode:
             raise vc.EngineError("objcopy failed: " + p.stderr)
